@@ -174,6 +174,76 @@ def derived_classes(ctx, o3):
                                   {"irreps": [str(J1), str(J2)], "irreps_out": str(ee.irreps_out), "expected_irreps_out": str(srt.irreps)}, True)
             except Exception as e:
                 ctx.violation("experimental.ElementwiseTensorProductv2/raises", {"irreps": [i1, i2], "error": repr(e)[:300]}, True)
+        # FullTensorProduct with its options = the documented construction: for every pair of input entries and every irrep of the
+        # product that passes the filter one block mul1*mul2 x ir ('uvuv', unweighted), blocks sorted; the irrep normalisation is the
+        # one requested (reference: an explicitly built TensorProduct with the same options, certified by the family of this check)
+        for i1, i2 in [("2x0e+1x1o", "1x0e+2x1o"), ("1x1o+1x2e", "1x1e+1x0o"), ("2x1o+1x0e", "1x1o+1x1o")]:
+            I1, I2 = o3.Irreps(i1), o3.Irreps(i2)
+            prods = sorted({ir for _, a in I1 for _, b in I2 for ir in a * b})
+            for filt in (None, [prods[0], prods[-1]], [str(prods[len(prods) // 2])]):
+                for nz in (None, "component", "norm", "none"):
+                    try:
+                        ft = o3.FullTensorProduct(I1, I2, filter_ir_out=filt, irrep_normalization=nz)
+                    except Exception as e:  # noqa: BLE001
+                        ctx.violation("FullTensorProduct/raises", {"irreps": [i1, i2], "filter_ir_out": str(filt), "irrep_normalization": nz, "error": repr(e)[:300]}, True)
+                        continue
+                    F = None if filt is None else [o3.Irrep(f) for f in filt]
+                    out, ins = [], []
+                    J1, J2 = ft.irreps_in1, ft.irreps_in2     # the constructor simplifies its inputs (documented): same layout, merged entries
+                    if J1.dim != I1.dim or J2.dim != I2.dim:
+                        ctx.violation("FullTensorProduct/irreps_in", {"irreps": [i1, i2], "reported": [str(J1), str(J2)]}, True)
+                        continue
+                    for a, (m1, ir1) in enumerate(J1):
+                        for b, (m2, ir2) in enumerate(J2):
+                            for ir in ir1 * ir2:
+                                if F is not None and ir not in F:
+                                    continue
+                                ins.append((a, b, len(out), "uvuv", False))
+                                out.append((m1 * m2, ir))
+                    OUT = o3.Irreps(out)
+                    srt = OUT.sort()
+                    ref = o3.TensorProduct(J1, J2, OUT, ins, irrep_normalization=nz)
+                    x1 = torch.randn(4, I1.dim, generator=g)
+                    x2 = torch.randn(4, I2.dim, generator=g)
+                    yr = ref(x1, x2)
+                    blocks = [yr[:, sl] for sl in OUT.slices()]
+                    exp = torch.cat([blocks[i] for i in srt.inv], dim=-1) if blocks else yr
+                    got = ft(x1, x2)
+                    ctx.case(f"FullTensorProduct {i1} {i2} filter={filt} irrep_normalization={nz}")
+                    if str(ft.irreps_out) != str(srt.irreps) or got.shape != exp.shape or (got - exp).abs().max() > 1e-10:
+                        ctx.violation("FullTensorProduct/documented-construction",
+                                      {"irreps": [i1, i2], "filter_ir_out": str(filt), "irrep_normalization": nz, "irreps_out": str(ft.irreps_out),
+                                       "expected_irreps_out": str(srt.irreps), "max_dev": float((got - exp).abs().max()) if got.shape == exp.shape else None,
+                                       "call": "o3.FullTensorProduct(I1, I2, filter_ir_out=F, irrep_normalization=nz) vs TensorProduct with the 'uvuv' instruction list of the documentation"}, True)
+        # ElementwiseTensorProduct with its options on blockwise-aligned inputs: one 'uuu' path per pair of aligned entries and irrep
+        for i1, i2 in [("2x1o+3x0e", "2x1e+3x1o"), ("1x2e+2x1o", "1x1o+2x1o")]:
+            I1, I2 = o3.Irreps(i1), o3.Irreps(i2)
+            allp = sorted({ir for (_, a), (_, b) in zip(I1, I2) for ir in a * b})
+            for filt in (None, allp[:1], [str(allp[-1])]):
+                for nz in (None, "norm", "none"):
+                    try:
+                        et = o3.ElementwiseTensorProduct(I1, I2, filter_ir_out=filt, irrep_normalization=nz)
+                    except Exception as e:  # noqa: BLE001
+                        ctx.violation("ElementwiseTensorProduct/raises", {"irreps": [i1, i2], "filter_ir_out": str(filt), "irrep_normalization": nz, "error": repr(e)[:300]}, True)
+                        continue
+                    F = None if filt is None else [o3.Irrep(f) for f in filt]
+                    out, ins = [], []
+                    for a, ((m1, ir1), (m2, ir2)) in enumerate(zip(I1, I2)):
+                        for ir in ir1 * ir2:
+                            if F is not None and ir not in F:
+                                continue
+                            ins.append((a, a, len(out), "uuu", False))
+                            out.append((m1, ir))
+                    OUT = o3.Irreps(out)
+                    ref = o3.TensorProduct(I1, I2, OUT, ins, irrep_normalization=nz)
+                    x1 = torch.randn(4, I1.dim, generator=g)
+                    x2 = torch.randn(4, I2.dim, generator=g)
+                    got, exp = et(x1, x2), ref(x1, x2)
+                    ctx.case(f"ElementwiseTensorProduct {i1} {i2} filter={filt} irrep_normalization={nz}")
+                    if str(et.irreps_out) != str(OUT) or got.shape != exp.shape or (got - exp).abs().max() > 1e-10:
+                        ctx.violation("ElementwiseTensorProduct/documented-construction",
+                                      {"irreps": [i1, i2], "filter_ir_out": str(filt), "irrep_normalization": nz, "irreps_out": str(et.irreps_out),
+                                       "expected_irreps_out": str(OUT), "max_dev": float((got - exp).abs().max()) if got.shape == exp.shape else None}, True)
         # TensorSquare = TensorProduct(x, x) with its instruction list
         for i1 in ["2x0e+1x1o", "1x1o+1x2e"]:
             ts = o3.TensorSquare(i1)
